@@ -411,7 +411,7 @@ def _parse_qs(qs, keep_blank_values=0, strict_parsing=0, encoding='utf-8'):
     return d
 
 
-image_map_pattern = re.compile(r'[0-9]+,[0-9]+')
+image_map_pattern = re.compile(r'[0-9]{1,18},[0-9]{1,18}')
 
 
 def parse_query_string(query_string, keep_blank_values=True, encoding='utf-8'):
